@@ -165,6 +165,25 @@ fn main() {
             let c = vh::intermediate_symbols_of(&enc);
             format!("packets {}\nC {}", v.join(","), c.iter().map(|x| hex(x)).collect::<Vec<_>>().join(","))
         }),
+        // object-packets F T Z N Al R : all packets of Encoder::new over bytes (i*53+11)^(i>>3), R repair packets per block
+        "object-packets" => catch(|| {
+            let f: usize = arg(&a, 1);
+            let data: Vec<u8> = (0..f).map(|i| (((i * 53 + 11) ^ (i >> 3)) & 0xFF) as u8).collect();
+            let cfg = ObjectTransmissionInformation::new(f as u64, arg(&a, 2), arg(&a, 3), arg(&a, 4), arg(&a, 5));
+            let enc = raptorq::Encoder::new(&data, cfg);
+            let v: Vec<String> = enc
+                .get_encoded_packets(arg(&a, 6))
+                .iter()
+                .map(|p| format!("{}:{}:{}", p.payload_id().source_block_number(), p.payload_id().encoding_symbol_id(), hex(p.data())))
+                .collect();
+            // and the decoder's view of the same packets (source packets only, reversed order)
+            let mut dec = raptorq::Decoder::new(cfg);
+            let mut res = None;
+            for p in enc.get_encoded_packets(0).into_iter().rev() {
+                res = dec.decode(p);
+            }
+            format!("object {}\nDECODED {}", v.join(","), match res { Some(d) => hex(&d), None => "none".to_string() })
+        }),
         other => format!("unknown sub-command {}", other),
     };
     let stdout = std::io::stdout();
